@@ -14,9 +14,9 @@ Form(r, name) == LET S == {k \in 1..Len(r.forms) : r.forms[k].s = name} IN r.for
 Threw(f) == f.exc # ""
 
 \* C08 -------------------------------------------------------------------------
-C08OK(r) ==
-    LET t == r.t  xs == Nums(t, r.x) IN
-    ~InScope(t, xs) \/
+C08OK(r) == \E c \in {[xs |-> Nums(r.t, r.x)]} : \E d \in {[zero |-> AllZero(c.xs), scope |-> InScope(r.t, c.xs), normal |-> NormIsNormal(r.t, c.xs)]} :
+    LET t == r.t  xs == c.xs IN
+    ~d.scope \/
     /\ LenOK(t, xs, r.len)
     /\ r.len2 = r.dot                                              \* length2() is dot(self)
     /\ (FinAll(t, <<r.len2>>) => Within(t, r.len2, Dot(xs, xs)))
@@ -25,11 +25,11 @@ C08OK(r) ==
          \*  arguments lazily, in the callee's context)
          LET frm_ == r.forms[k] IN
          \* never NaN or infinity, whatever the size of the norm (the NonNull forms have the non-null vector as precondition)
-         /\ ((~Threw(frm_) /\ ~(AllZero(xs) /\ frm_.s \in {"normalizeNonNull", "normalizedNonNull"})) =>
+         /\ ((~Threw(frm_) /\ ~(d.zero /\ frm_.s \in {"normalizeNonNull", "normalizedNonNull"})) =>
                 \A i \in 1..Len(frm_.v) : I!IsFinite(Fm(t), I!Dec(t, frm_.v[i])))
-         /\ IF AllZero(xs)
+         /\ IF d.zero
             THEN (frm_.s \in {"normalize", "normalized"} => ~Threw(frm_) /\ IsZeroVec(t, frm_.v))    \* zero maps to zero
-            ELSE NormIsNormal(t, xs) => (~Threw(frm_) /\ NormOK(t, xs, frm_.v))
+            ELSE d.normal => (~Threw(frm_) /\ NormOK(t, xs, frm_.v))
 
 \* C07: checked (Exc) vs unchecked -------------------------------------------------
 PairOK(r, unchecked, checked) ==
